@@ -49,6 +49,7 @@ def typedNode : Node → Node
   | .and l r => .and (typedNode l) (typedNode r)
   | .or l r => .or (typedNode l) (typedNode r)
   | .not n => .not (typedNode n)
+  | .test e op rhs => .test e op rhs
 
 inductive XOp where
   | base (o : Op)
@@ -146,7 +147,7 @@ def refInserts : Ref → List Op → List Nat → Option Ref
   | r, [], [] => some r
   | r, .insert ty d :: ops, h :: hs =>
     if h == r.nextId then
-      refInserts { r with live := r.live ++ [(h, ty, canonData d)], nextId := r.nextId + 1, fresh := r.fresh ++ [h] } ops hs
+      refInserts { r with live := r.live ++ [(h, ty, canonData d)], nextId := r.nextId + 1, fresh := r.fresh ++ [h], freshTypes := r.freshTypes ++ [ty] } ops hs
     else none
   | _, _, _ => none
 
